@@ -1259,6 +1259,27 @@ func runWalks(r *chk.Run, s *sink, c *counters) {
 			t3cells = append(t3cells, ref.VTimeOld(neg, h, 59, 58), ref.VTimeOld(neg, h, 59, 58), ref.VTimeOld(neg, h, 59, 59))
 		}
 	}
+	// a long run of distinct dates, then the first ones again (a memo of recent
+	// dates that is recycled after N entries hands out another row's date)
+	{
+		var long, longD []ref.Cell
+		day := func(i int) (int, int, int) {
+			t := time.Date(2004, 1, 1, 0, 0, 0, 0, time.UTC).AddDate(0, 0, i)
+			return t.Year(), int(t.Month()), t.Day()
+		}
+		for i := 0; i < 9000; i++ {
+			y, m, d := day(i)
+			long = append(long, ref.VDateTimeFsp(3, y, m, d, 12, 34, 56, 789000))
+			longD = append(longD, ref.VDate3(y, m, d))
+		}
+		for i := 0; i < 300; i++ {
+			y, m, d := day(i)
+			long = append(long, ref.VDateTimeFsp(3, y, m, d, 1, 2, 3, 4000))
+			longD = append(longD, ref.VDate3(y, m, d))
+		}
+		e += walkCells(s, "datetime2-long-run", ref.TDateTime2, 3, long)
+		e += walkCells(s, "date-long-run", ref.TDate, 0, longD)
+	}
 	both("date-walk", ref.TDate, 0, dcells)
 	both("datetime-old-walk", ref.TDateTime, 0, ocells)
 	both("time-old-walk", ref.TTime, 0, t3cells)
